@@ -156,6 +156,10 @@ func specCase(ctx context.Context, rep *mon.Reporter, rng *mon.Rand, cfg mon.Con
 		}
 		onePlan(ctx, rep, spec, in, ref, plan, paras, sample && pi == 0)
 	}
+	// a few plans are also replayed: every checkpoint of the history is resumed twice
+	for i, k := 0, cfg.Pick(6, 20); i < k && len(ps) > 0; i++ {
+		replayCase(ctx, rep, rng, spec, in, ref, ps[rng.Intn(len(ps))])
+	}
 }
 
 func onePlan(ctx context.Context, rep *mon.Reporter, spec *gspec.GraphSpec, in gspec.V, ref *gspec.RefResult, plan gspec.Plan, paras []string, sample bool) {
